@@ -24,7 +24,8 @@ func TestMain(m *testing.M) {
 	lib.Extra("rule", "rapid-generated decorator stacks (depth <= 3) of {message-transform, delay.Publisher, Prometheus metrics decorator (also the same one twice)} over scripted publishers/subscribers; "+
 		"batches of 1..5 fresh messages each with {pre-set delay metadata, context delay For/Until (past, zero, far future), none}; PublisherConfig {generator present/absent/failing, AllowNoDelay}; inner-publisher failure scripts; "+
 		"Router runs with metrics decorators applied once or twice and handler outcomes {success, error, panic, publish failure}. Oracle: transparency (same pointers, order, one inner call per outer call, errors and Close pass through, settlement reaches the inner message), "+
-		"delay precedence model with until-for bracketed by harness time stamps, and exact Prometheus sample counts from a private registry. Non-trivial: stack depth >= 2, or a batch mixing delay sources, or a non-success outcome.")
+		"delay precedence model with until-for bracketed by harness time stamps, and exact Prometheus sample counts from a private registry. Non-trivial: stack depth >= 2, or a batch mixing delay sources, or a non-success outcome."+
+		" Subscriber stacks: 1 of 3 cases leaves an unread message in the stack when the subscription ends (Close, or cancel then Close): it is in no metrics count.")
 	lib.Extra("assumptions", []string{
 		"every message object is published once (Message godoc); empty batches are passed through uncounted by design",
 		"label values other than success/acked are summed over; the handler middleware is installed once (idempotency is a property of the decorators, not of the middleware)",
